@@ -9,7 +9,12 @@ for m in sorted(glob.glob(os.path.join(here, "seeded", "*", "meta.json"))):
   name = os.path.basename(os.path.dirname(m))
   needs = d["needs"].replace("|", "/")
   if d.get("expect") == "silent":
-    needs += " -- **NOT caught (documented miss)**: " + \
+    label = {"miss": "NOT caught (documented miss)",
+             "allowed": "not flagged: the behaviour is allowed",
+             "equivalent": "not flagged: equivalent on the repaired tree",
+             "unreachable": "not flagged: not reachable with real sockets",
+             }[d.get("silent_kind", "miss")]
+    needs += " -- **" + label + "**: " + \
         d.get("why_silent", "").replace("|", "/")
   rows.append((d["property"], name, needs))
 rows.sort()
